@@ -258,6 +258,23 @@ class ShareIndexModel:
             elif new != old:
                 self.moved[f] = 'remove_nested'
 
+    def reload(self, configured: Iterable[tuple]):
+        """The shared directories were loaded again from an empty cache and the settings: exactly the configured
+        directories are shared, as fresh directories (nothing indexed until they are scanned).
+        ``configured``: ``(directory, mode, users)``."""
+        old = dict(self.shared)
+        self.shared = {}
+        self.known = set()
+        self.optional = set()
+        self.moved = {}
+        for directory, mode, users in configured:
+            self.shared[self.norm(directory)] = {'mode': mode, 'users': list(users)}
+        for directory in old:
+            if directory not in self.shared:
+                self.removed[directory] = {'gc': False, 'kept': False, 'alias': None}
+        for directory in self.shared:
+            self.removed.pop(directory, None)
+
     def collected(self):
         """A garbage collection ran (diagnostic fact for results of removed directories)."""
         for rec in self.removed.values():
